@@ -34,6 +34,10 @@ func NewSubscriptionManager(localDevice api.DeviceLocalInterface) *SubscriptionM
 
 // is sent from the client (remote device) to the server (local device)
 func (c *SubscriptionManager) AddSubscription(remoteDevice api.DeviceRemoteInterface, data model.SubscriptionManagementRequestCallType) error {
+	if data.ClientAddress == nil || data.ServerAddress == nil || data.ServerFeatureType == nil {
+		return errors.New("clientAddress, serverAddress and serverFeatureType are required")
+	}
+
 	serverFeature := c.localDevice.FeatureByAddress(data.ServerAddress)
 	if serverFeature == nil {
 		return fmt.Errorf("server feature '%s' in local device '%s' not found", data.ServerAddress, *c.localDevice.Address())
@@ -85,6 +89,10 @@ func (c *SubscriptionManager) AddSubscription(remoteDevice api.DeviceRemoteInter
 
 // Remove a specific subscription that is provided by a delete message from a remote device
 func (c *SubscriptionManager) RemoveSubscription(data model.SubscriptionManagementDeleteCallType, remoteDevice api.DeviceRemoteInterface) error {
+	if data.ClientAddress == nil || data.ServerAddress == nil {
+		return errors.New("clientAddress and serverAddress are required")
+	}
+
 	var newSubscriptionEntries []*api.SubscriptionEntry
 
 	// according to the spec 7.4.4
